@@ -408,16 +408,155 @@ Proof.
       try (eapply extends_trans; [|eauto]; apply extends_snoc; auto using extends_refl).
 Qed.
 
-Lemma mainloop_spec : forall fuel J s J' s',
-  Inv J s -> JRange J -> mainloop T B F fuel J s = Ok (J', s') ->
-  Inv J' s' /\ JRange J' /\ Extends J J' /\ (forall b, 1 <= b < nb B -> inTree s' b = true).
+(* ------------------------------------------------------------------ no terminal massless mobile body *)
+Definition needsChild (J : list joint) (m : mob) : Prop :=
+  massOf B (moutb m) = 0%Z /\ 0 < dofOf T (nth (mjoint m) J jd).
+Definition hasChild (l : list mob) (m : mob) : Prop := exists m', In m' l /\ minb m' = moutb m.
+Definition NT (J : list joint) (l : list mob) : Prop := forall m, In m l -> needsChild J m -> hasChild l m.
+(** the same for all but the last mobilizer (the one whose branch is being extended) *)
+Definition NTp (J : list joint) (l : list mob) : Prop := forall m, In m (removelast l) -> needsChild J m -> hasChild l m.
+
+Lemma hasChild_app l l' m : hasChild l m -> hasChild (l ++ l') m.
+Proof. intros (m' & H1 & H2). exists m'. split; auto. apply in_or_app; auto. Qed.
+
+Lemma NT_NTp_snoc J l x : NT J l -> NTp J (l ++ [x]).
+Proof. intros H m Hm Hn. rewrite removelast_last in Hm. apply hasChild_app. auto. Qed.
+
+Lemma NTp_close J l x : NTp J (l ++ [x]) -> ~ needsChild J x -> NT J (l ++ [x]).
 Proof.
-  induction fuel as [|f IH]; simpl; intros J s J' s' HI HR H; [discriminate|].
+  intros H Hx m Hm Hn. apply in_app_or in Hm. destruct Hm as [Hm|[<-|[]]].
+  - apply H; auto. rewrite removelast_last. auto.
+  - contradiction.
+Qed.
+
+Lemma NTp_extend J l x y : NTp J (l ++ [x]) -> minb y = moutb x -> NTp J ((l ++ [x]) ++ [y]).
+Proof.
+  intros H Hy m Hm Hn. rewrite removelast_last in Hm. apply in_app_or in Hm. destruct Hm as [Hm|[<-|[]]].
+  - apply hasChild_app. apply H; auto. rewrite removelast_last. auto.
+  - exists y. split; auto. apply in_or_app. right. simpl; auto.
+Qed.
+
+Lemma lastOutb_snoc s l x : mobs s = l ++ [x] -> lastOutb s = moutb x.
+Proof. intros H. unfold lastOutb. rewrite H, last_snoc. reflexivity. Qed.
+
+(** the mobilizer the chain loop adds hangs off the last outboard body *)
+Lemma chain_step_fwd J s jn : Inv J s -> findFwd B J s (lastOutb s) = Some jn ->
+  exists y, mobs (addMob J jn s) = mobs s ++ [y] /\ minb y = lastOutb s /\ moutb y = jchi (nth jn J jd).
+Proof.
+  intros HI Hf. destruct (fwd_pre J s jn HI Hf) as (_ & _ & _ & Hx).
+  apply findFwd_spec in Hf. destruct Hf as (_ & Hp & _ & _ & Hc & _).
+  destruct (lastOutb_inTree J s HI) as (lb & Hlb).
+  destruct (addMob_ext J jn s Hx) as [(l & E1 & E2 & ->)|(l & E1 & E2 & ->)].
+  - eexists. split; [reflexivity|]. simpl. auto.
+  - rewrite Hp in E2. congruence.
+Qed.
+Lemma chain_step_rev J s jn : Inv J s -> findRev B J s (lastOutb s) = Some jn ->
+  exists y, mobs (addMob J jn s) = mobs s ++ [y] /\ minb y = lastOutb s /\ moutb y = jpar (nth jn J jd).
+Proof.
+  intros HI Hf. destruct (rev_pre J s jn HI Hf) as (_ & _ & _ & Hx).
+  apply findRev_spec in Hf. destruct Hf as (_ & Hp & _ & _ & Hc & _).
+  destruct (lastOutb_inTree J s HI) as (lb & Hlb).
+  destruct (addMob_ext J jn s Hx) as [(l & E1 & E2 & ->)|(l & E1 & E2 & ->)].
+  - congruence.
+  - eexists. split; [reflexivity|]. simpl. auto.
+Qed.
+
+Lemma chain_nt J : forall fuel s added s' added',
+  Inv J s -> mobs s <> [] -> NTp J (mobs s) -> chain B fuel J s added = Ok (s', added') -> NT J (mobs s').
+Proof.
+  induction fuel as [|f IH]; simpl; intros s added s' added' HI Hne HN H; [discriminate|].
+  destruct (exists_last Hne) as (l & x & El).
+  pose proof (lastOutb_snoc _ _ _ El) as Hlast.
+  assert (Hmassful : forall y, mobs s ++ [y] = (l ++ [x]) ++ [y] -> minb y = lastOutb s ->
+                     (massOf B (moutb y) >? 0)%Z = true -> NT J (mobs s ++ [y])).
+  { intros y _ Hy Hm. rewrite El. apply NTp_close.
+    - apply NTp_extend; [rewrite <- El; auto| congruence].
+    - intros [Hz _]. apply Z.gtb_lt in Hm. lia. }
+  assert (Hcont : forall y, minb y = lastOutb s -> NTp J (mobs s ++ [y])).
+  { intros y Hy. rewrite El. apply NTp_extend; [rewrite <- El; auto| congruence]. }
+  assert (Hne' : forall y, mobs s ++ [y] <> []) by (intros y E; destruct (mobs s); discriminate).
+  destruct (findFwd B J s (lastOutb s)) as [jf|] eqn:Ef.
+  - destruct (fwd_pre J s jf HI Ef) as (P1 & P2 & P3 & P4).
+    destruct (chain_step_fwd J s jf HI Ef) as (y & Y1 & Y2 & Y3).
+    destruct (Z.gtb (massOf B (jchi (nth jf J jd))) 0) eqn:Em.
+    + inv H. rewrite Y1. apply Hmassful; auto; congruence.
+    + destruct (findRev B J s (lastOutb s)) as [jr|] eqn:Er.
+      * destruct (rev_pre J s jr HI Er) as (Q1 & Q2 & Q3 & Q4).
+        destruct (chain_step_rev J s jr HI Er) as (z & Z1 & Z2 & Z3).
+        destruct (Z.gtb (massOf B (jpar (nth jr J jd))) 0) eqn:Em2.
+        -- inv H. rewrite Z1. apply Hmassful; auto; congruence.
+        -- eapply IH; [| | |exact H]; [apply addMob_inv; auto| rewrite Y1; auto | rewrite Y1; auto].
+      * eapply IH; [| | |exact H]; [apply addMob_inv; auto| rewrite Y1; auto | rewrite Y1; auto].
+  - destruct (findRev B J s (lastOutb s)) as [jr|] eqn:Er.
+    + destruct (rev_pre J s jr HI Er) as (Q1 & Q2 & Q3 & Q4).
+      destruct (chain_step_rev J s jr HI Er) as (z & Z1 & Z2 & Z3).
+      destruct (Z.gtb (massOf B (jpar (nth jr J jd))) 0) eqn:Em2.
+      * inv H. rewrite Z1. apply Hmassful; auto; congruence.
+      * eapply IH; [| | |exact H]; [apply addMob_inv; auto| rewrite Z1; auto | rewrite Z1; auto].
+    + discriminate.
+Qed.
+
+Lemma sweep_nt J l0 : forall jns s added any s' added' any',
+  Inv J s -> NT J (mobs s) -> Forall (fun jn => jn < length J) jns ->
+  sweep T B F J l0 jns s added any = Ok (s', added', any') -> NT J (mobs s').
+Proof.
+  induction jns as [|jn r IH]; simpl; intros s added any s' added' any' HI HN HF H.
+  - inv H. auto.
+  - inv HF. destruct (jm s jn) eqn:Ejm.
+    { eapply IH; eauto. }
+    destruct (jloop (nth jn J jd)) eqn:El.
+    { eapply IH; eauto. }
+    destruct (negb (xorb (inTree s (jpar (nth jn J jd))) (inTree s (jchi (nth jn J jd))))) eqn:Ex.
+    { eapply IH; eauto. }
+    apply negb_false_iff in Ex.
+    match type of H with (if negb ?c then _ else _) = _ => destruct c end; simpl in H.
+    2:{ eapply IH; eauto. }
+    assert (HI1 : Inv J (addMob J jn s)) by (apply addMob_inv; auto).
+    destruct (addMob_mobs_snoc J jn s Ex) as (m & Hm & Hmj & _).
+    assert (HNp : NTp J (mobs (addMob J jn s))) by (rewrite Hm; apply NT_NTp_snoc; auto).
+    assert (Hlast : lastOutb (addMob J jn s) = moutb m) by (eapply lastOutb_snoc; eauto).
+    rewrite Hlast in H.
+    destruct (Nat.eqb (dofOf T (nth jn J jd)) 0 || Z.gtb (massOf B (moutb m)) 0) eqn:Ec.
+    { eapply IH; [| | |exact H]; auto. rewrite Hm. apply NTp_close; [rewrite <- Hm; auto|].
+      intros [N1 N2]. rewrite Hmj in N2. apply orb_true_iff in Ec. destruct Ec as [Ec|Ec].
+      - apply Nat.eqb_eq in Ec. lia.
+      - apply Z.gtb_lt in Ec. lia. }
+    destruct (chain B F J (addMob J jn s) (jn :: added)) as [[s2 added2]| |] eqn:Ech; try discriminate.
+    eapply IH; [| | |exact H]; auto.
+    + eapply chain_inv; eauto.
+    + eapply chain_nt; eauto. rewrite Hm. intros E; destruct (mobs s); discriminate.
+Qed.
+
+Lemma levels_nt J : forall fuel l0 s added s',
+  Inv J s -> NT J (mobs s) -> levels T B F fuel J l0 s added = Ok s' -> NT J (mobs s').
+Proof.
+  induction fuel as [|f IH]; simpl; intros l0 s added s' HI HN H; [discriminate|].
+  destruct (sweep T B F J l0 (seq 0 (length J)) s added false) as [[[s1 added1] any1]| |] eqn:Es; try discriminate.
+  assert (Inv J s1) by (eapply sweep_inv; eauto using seq_lt).
+  assert (NT J (mobs s1)) by (eapply sweep_nt; [exact HI|exact HN|apply seq_lt|exact Es]).
+  destruct any1.
+  - eapply IH; eauto.
+  - inv H. auto.
+Qed.
+
+Lemma nt_snoc J x s : Inv J s -> NT J (mobs s) -> NT (J ++ [x]) (mobs s).
+Proof.
+  intros HI HN m Hm [N1 N2]. apply HN; auto. split; auto.
+  apply In_nth_error in Hm. destruct Hm as (i & Hi).
+  destruct (I_mob _ _ HI _ _ Hi) as (M1 & _). rewrite app_nth1 in N2; auto.
+Qed.
+
+Lemma mainloop_spec : forall fuel J s J' s',
+  Inv J s -> NT J (mobs s) -> JRange J -> mainloop T B F fuel J s = Ok (J', s') ->
+  (Inv J' s' /\ NT J' (mobs s')) /\ JRange J' /\ Extends J J' /\ (forall b, 1 <= b < nb B -> inTree s' b = true).
+Proof.
+  induction fuel as [|f IH]; simpl; intros J s J' s' HI HN HR H; [discriminate|].
   destruct (growTree T B F J s) as [s1| |] eqn:Eg; try discriminate.
   assert (HI1 : Inv J s1) by (eapply growTree_inv; eauto).
+  assert (HN1 : NT J (mobs s1)) by (eapply levels_nt; [exact HI|exact HN|exact Eg]).
   destruct (chooseNewBase B J s1) as [b|] eqn:Ec.
   - apply chooseNewBase_some in Ec. destruct Ec as [Hb _].
-    apply IH in H; auto using inv_snoc, jrange_snoc.
+    apply IH in H; auto using inv_snoc, jrange_snoc, nt_snoc.
     destruct H as (H1 & H2 & H3 & H4). split; [auto|split; [auto|split; [|auto]]].
     eapply extends_trans; [|eauto]. apply extends_snoc; auto using extends_refl.
   - inv H. split; [auto|split; [auto|split; [apply extends_refl|]]]. eapply chooseNewBase_none; eauto.
